@@ -50,6 +50,54 @@ def all_cases(ctx):
     return cs
 
 
+def library_output_cases(ctx):
+    """second sentence of the property: what the library's generators / transforms / parsers return for lint-clean arguments is
+    lint-clean.  Concrete side assertions (the real lint, whose verdicts are what the E2 part of this check establishes)."""
+    from cgv import families as F
+
+    fam = F.f_shape() + F.reordered(F.f_shape()) + [c for c in F.f_unit(3) if c[0][0] == "pair"][:12] + F.f_bb() + F.f_rand(ctx.seed, 10 if ctx.quick else 60)
+    return [(("libout",) + cid, ("libout", spec)) for cid, spec in fam]
+
+
+def check_library_outputs(ctx, cid, spec):
+    import circuitgraph as cg
+    from circuitgraph import tx
+    from cgv.core import call
+    from cgv.net import Net, build, wellformed
+
+    A = Net.from_spec(spec)
+    if wellformed(A) or not A.is_acyclic():
+        ctx.rejected("family member not lint-clean")
+        return
+    det = {"case": cid, "circuit": spec if len(spec["nodes"]) < 25 else None}
+    plain = not A.bbs and not A.has_x()
+    calls = [("limit_fanin", lambda: tx.limit_fanin(build(spec), 2)), ("limit_fanout", lambda: tx.limit_fanout(build(spec), 2)),
+             ("verilog round trip", lambda: cg.io.verilog_to_circuit(cg.io.circuit_to_verilog(build(spec)), spec["name"], blackboxes=[cg.BlackBox(v[0], v[1], v[2]) for v in A.bbs.values()])),
+             ("fast verilog parse", lambda: cg.io.verilog_to_circuit(cg.io.circuit_to_verilog(build(spec)), spec["name"], blackboxes=[cg.BlackBox(v[0], v[1], v[2]) for v in A.bbs.values()], fast=True)),
+             ("copy", lambda: build(spec).copy())]
+    if plain:
+        calls += [("ternary", lambda: tx.ternary(build(spec))[0]), ("miter", lambda: tx.miter(build(spec))), ("acyclic_unroll", lambda: tx.acyclic_unroll(build(spec))),
+                  ("supergates", lambda: tx.supergates(build(spec))), ("bench round trip", lambda: cg.io.bench_to_circuit(cg.io.circuit_to_bench(build(spec)), spec["name"]))]
+        outs = sorted(A.outputs() - A.inputs())
+        ins = sorted(A.inputs())
+        if outs and ins:
+            calls.append(("unroll", lambda: tx.unroll(build(spec), 2, {outs[0]: ins[0]})[0]))
+            calls.append(("sensitivity_transform", lambda: tx.sensitivity_transform(build(spec), outs[0])))
+            calls.append(("sensitization_transform", lambda: tx.sensitization_transform(build(spec), ins[0])))
+        if "clk" not in A.types:
+            calls.append(("insert_registers", lambda: tx.insert_registers(build(spec), 1)))
+    for name, f in calls:
+        r, e = call(f)
+        if e is not None:
+            ctx.count("library_calls_raising")  # whether a call may raise is the business of the property that owns the function
+            continue
+        for c in (r if isinstance(r, list) else [r]):
+            flags = {}
+            if name in ("sensitization_transform", "miter") and False:
+                flags = {}
+            ctx.lint_clean(c, name, sig=f"lint-clean-output:{name}")
+
+
 def rules(U, S, registry, flags):
     """(Must, May): z3 formulas over the pre-state accessors"""
     fail_fast, unloaded, undriven, single = flags
@@ -92,7 +140,11 @@ def run(ctx):
     from circuitgraph import utils
 
     ctx.functions(utils.lint)
-    for cid, (U, reg, fl, sb, k, types) in ctx.cases(all_cases(ctx)):
+    for cid, payload in ctx.cases(all_cases(ctx) + library_output_cases(ctx)):
+        if payload[0] == "libout":
+            check_library_outputs(ctx, cid, payload[1])
+            continue
+        (U, reg, fl, sb, k, types) = payload
         vars_ = sg.make_vars(U)
         if types == "many":
             pre = sg.base_pre(vars_, types=TYPES + ["UNSUPPORTED", "MISSING"])
